@@ -5,8 +5,9 @@ from chancommon import KIND, CASE_WALL, run_impl, shrink_candidates, classify_co
 import regen
 
 SPECS = ["C04"]
-THEOREMS = ["C04.expectLoop_spec", "C04.expect_spec", "Pat.search_bound", "C04.case_spec", "ChanCase.keeps", "Re.M_la_iff", "Re.maxWidth_la"]
-LEAN_MODULES = ["TbotVerif.Props.ChanCase", "TbotVerif.Props.ReProps"]
+THEOREMS = ["C04.expectLoop_spec", "C04.expect_spec", "Pat.search_bound", "C04.case_spec", "ChanCase.keeps", "Re.M_la_iff", "Re.maxWidth_la",
+            "Re.window_search", "Re.search_eq_of_least", "Re.matchAt_inside", "Re.window_wrong_with_lookahead"]
+LEAN_MODULES = ["TbotVerif.Props.ChanCase", "TbotVerif.Props.ReProps", "TbotVerif.Props.C04Window"]
 QUICK_N, THOROUGH_N = 5000, 80000
 QUICK_BUDGET, THOROUGH_BUDGET = 40, 900
 RULE = ("random (pattern list of 1-4 literals/regexes incl. prefixes of one another and samples cut out of the stream, "
